@@ -1,6 +1,16 @@
-"""Symbolic-length sequences (placeholder module; extended as contracts need them)."""
+"""Symbolic-length sequences: ranges and lists of byte strings (FormalName = list of components).
+
+BufSeq models a python list whose elements are byte strings: element j is View(cells[j], starts[j], lens[j]).
+Ghost vocabulary (trusted axiomatisation, instantiated on demand, listed in evidence):
+  PS(lens, k)   prefix sum of the first k lengths:  PS(a,0)=0, PS(a,k+1)=PS(a,k)+a[k], a[k]>=0,
+                PS(Store(a,n,v),k)=PS(a,k) for k<=n  (append does not change earlier prefix sums)
+"""
+import z3
 from .zutil import *
-from .run import Unsupported
+from .run import View, Unsupported, PathEnd
+from .values import BoundMethod
+
+PS = z3.Function('PS', ROW, INT, INT)
 
 
 class SymRange:
@@ -16,3 +26,160 @@ class SymRange:
         lo = it.run.concretize(zint(self.lo), 'range.lo')
         hi = it.run.concretize(zint(self.hi), 'range.hi')
         return list(range(lo, hi))
+
+    # for loops with a specification
+    def seq_len(self):
+        return If(zint(self.hi) > zint(self.lo), zint(self.hi) - zint(self.lo), 0)
+
+    def elem(self, it, i):
+        return simp(zint(self.lo) + zint(i))
+
+
+class _Method:
+    def __init__(self, f):
+        self.f = f
+
+    def call_(self, it, args, kwargs, node):
+        return self.f(it, *args, **kwargs)
+
+
+class BufSeq:
+    def __init__(self, run, n, cells, starts, lens, kind='bytearray', writable=False, label='seq'):
+        self.run, self.n, self.cells, self.starts, self.lens = run, n, cells, starts, lens
+        self.kind, self.writable, self.label = kind, writable, label
+
+    @staticmethod
+    def fresh(run, label, kind='bytearray', input_cells=True):
+        n = run.fresh_int(label + '_n')
+        run.assume(n >= 0)
+        s = BufSeq(run, n, run.fresh_row(label + '_cells'), run.fresh_row(label + '_starts'),
+                   run.fresh_row(label + '_lens'), kind, False, label)
+        return s
+
+    @staticmethod
+    def empty(run, kind='memoryview'):
+        return BufSeq(run, 0, z3.K(INT, z3.IntVal(0)), z3.K(INT, z3.IntVal(0)), z3.K(INT, z3.IntVal(0)), kind)
+
+    def copy(self):
+        return BufSeq(self.run, self.n, self.cells, self.starts, self.lens, self.kind, self.writable, self.label)
+
+    # ---- ghost
+    def elem(self, it, j):
+        j = zint(j)
+        ln = z3.Select(self.lens, j)
+        self.run.assume(ln >= 0)
+        return View(simp(z3.Select(self.cells, j)), simp(z3.Select(self.starts, j)), simp(ln), self.kind, self.writable)
+
+    def psum(self, k):
+        """PS(lens, k) with the defining axioms instantiated around k"""
+        k = simp(zint(k))
+        a = self.lens
+        r = self.run
+        r.assume(PS(a, z3.IntVal(0)) == 0)
+        n = zint(self.n)
+        # monotonicity instance (true by induction since every length is >= 0): PS(k) <= PS(n) for 0 <= k <= n
+        r.assume(z3.Implies(z3.And(zint(k) >= 0, zint(k) <= n), z3.And(PS(a, zint(k)) <= PS(a, n), PS(a, zint(k)) >= 0)))
+        if not isinstance(k, int):
+            r.assume(z3.Implies(z3.And(zint(k) >= 0, zint(k) + 1 <= n), PS(a, zint(k) + 1) <= PS(a, n)))
+        if isinstance(k, int):
+            for j in range(k):
+                r.assume(z3.And(z3.Select(a, j) >= 0, PS(a, z3.IntVal(j + 1)) == PS(a, z3.IntVal(j)) + z3.Select(a, j)))
+            return PS(a, z3.IntVal(k))
+        r.assume(z3.Implies(k >= 0, z3.And(z3.Select(a, k) >= 0, PS(a, k + 1) == PS(a, k) + z3.Select(a, k), PS(a, k) >= 0)))
+        r.assume(z3.Implies(k >= 1, z3.And(z3.Select(a, k - 1) >= 0, PS(a, k) == PS(a, k - 1) + z3.Select(a, k - 1), PS(a, k - 1) >= 0)))
+        return PS(a, k)
+
+    def total(self):
+        return self.psum(self.n)
+
+    def seq_len(self):
+        return self.n
+
+    # ---- python protocol hooks used by the interpreter
+    def len_(self, it, node):
+        return self.n
+
+    def truth(self, it):
+        return simp(zint(self.n) != 0)
+
+    def isinstance_(self, t):
+        try:
+            return issubclass(list, t)
+        except TypeError:
+            return False
+
+    def iterate(self, it, node):
+        n = simp(zint(self.n))
+        if not isinstance(n, int):
+            raise Unsupported('iteration over a symbolic-length list without a loop specification')
+        return [self.elem(it, j) for j in range(n)]
+
+    def to_list(self, it, node):
+        return self.copy()
+
+    def enumerate_(self, it, start, node):
+        return SymEnumerate(self, start)
+
+    def getitem(self, it, idx, node):
+        i, n = zint(idx), zint(self.n)
+        if not it.run.branch(z3.And(i >= -n, i < n), 'list.index_ok'):
+            it.raise_(IndexError, 'list index out of range', node=node)
+        return self.elem(it, simp(z3.If(i < 0, i + n, i)))
+
+    def setitem(self, it, idx, val, node):
+        raise Unsupported('assignment into symbolic list')
+
+    def getslice(self, it, lo, hi, node):
+        s, n = it.norm_slice(self.n, lo, hi)
+        if simp(s) != 0:
+            raise Unsupported('list slice with non-zero start')
+        return BufSeq(self.run, n, self.cells, self.starts, self.lens, self.kind, self.writable, self.label + '[:]')
+
+    def append(self, it, v):
+        if not isinstance(v, View):
+            raise Unsupported('append of non-bytes to a list of byte strings')
+        n = zint(self.n)
+        old_lens = self.lens
+        self.cells = z3.Store(self.cells, n, zint(v.cell))
+        self.starts = z3.Store(self.starts, n, zint(v.start))
+        self.lens = z3.Store(self.lens, n, zint(v.length))
+        # append keeps earlier prefix sums (axiom instance at k = n) and extends by one
+        self.run.assume(PS(self.lens, n) == PS(old_lens, n))
+        self.run.assume(PS(self.lens, n + 1) == PS(old_lens, n) + zint(v.length))
+        self.n = simp(n + 1)
+        return None
+
+    def getattr_(self, it, name, node):
+        if name == 'append':
+            return _Method(lambda it_, v: self.append(it_, v))
+        raise Unsupported(f'list method {name} on symbolic list')
+
+    def reduce_(self, it, fn, init, node):
+        """functools.reduce(fn, self, init): supported when fn(x, y) == x + len(y) (checked symbolically)"""
+        if init is None:
+            raise Unsupported('reduce without initial value over symbolic list')
+        x, ln = it.run.fresh_int('rx'), it.run.fresh_int('rl')
+        y = View(it.run.fresh_int('rc'), it.run.fresh_int('rs'), ln, self.kind)
+        r = it.call(fn, [x, y], {}, node)
+        s = z3.Solver()
+        s.add(z3.Not(zint(r) == x + ln))
+        if s.check() != z3.unsat:
+            raise Unsupported('reduce function is not x + len(y)')
+        return simp(zint(init) + self.total())
+
+    def compare(self, it, op, other, node):
+        raise Unsupported('comparison of symbolic lists')
+
+
+class SymEnumerate:
+    def __init__(self, seq, start=0):
+        self.seq, self.start = seq, start
+
+    def seq_len(self):
+        return self.seq.seq_len()
+
+    def elem(self, it, i):
+        return (simp(zint(self.start) + zint(i)), self.seq.elem(it, i))
+
+    def iterate(self, it, node):
+        return [(self.start + j, x) for j, x in enumerate(self.seq.iterate(it, node))]
